@@ -374,7 +374,7 @@ def mkoption(item: Optional[Obj], item_t: TCls) -> Obj:
 
 def run_typed(repo: Repo, cls_qual: str, stack_items: List[Any], args: Optional[List[Any]] = None, max_paths: int = 400,
               max_depth: int = 30, context: Any = None, extra: Optional[Dict[str, Any]] = None, opaque_types: bool = False,
-              loop_unroll: int = 3) -> List[PathResult]:
+              loop_unroll: int = 3, protected: int = 0) -> List[PathResult]:
     fi = repo.find_method(cls_qual, 'execute')
     if fi is None:
         raise AnalysisError(f'{cls_qual} has no execute')
@@ -386,6 +386,7 @@ def run_typed(repo: Repo, cls_qual: str, stack_items: List[Any], args: Optional[
 
     def go(i):
         st = mk_stack(stack_items)
+        st.fields['protected'] = protected  # the first `protected` items belong to an enclosing DIP: out of reach of the instruction
         out: List[Any] = []
         ctx = context if context is not None else Sym('context')
         r = i.call_function(FuncRef(fi, ClassRef(cls_qual), True), [st, out, ctx], {}, None, force_inline=True)
